@@ -36,9 +36,10 @@ DET_LPS = ["EpsilonGreedy", "UCB1", "LinUCB", "LinGreedy"]
 def clusters_plan_st(draw, tier):
     kind, arms = draw(gen.arms_st(("int", "str"), 1, 4))
     if draw(st.integers(0, 2)):
-        lp = draw(gen.lp_st(DET_LPS, arms, deterministic=True))
+        lp = draw(gen.lp_st(DET_LPS, arms, deterministic=True, scale_ok=True))
     else:   # randomised policies, reproduced through the per-row seed (LinTS excluded: finding D8 of C05)
-        lp = draw(gen.lp_st(["EpsilonGreedy", "Softmax", "ThompsonSampling", "Random", "LinGreedy"], arms))
+        lp = draw(gen.lp_st(["EpsilonGreedy", "Softmax", "ThompsonSampling", "Random", "LinGreedy"], arms,
+                            scale_ok=True))
     cfg = {"arms": arms, "lp": lp,
            "np": ["Clusters", {"n_clusters": draw(st.integers(2, 4)),
                                "is_minibatch": draw(st.sampled_from([True, True, False]))}],
